@@ -124,8 +124,8 @@ void Format::format( std::ostream& dest, const detail::LogMsg& msg) const
          break;
       case FieldTypes::attribute:
          {
-            auto  attr_value( msg.getAttributeValue( field_def.mConstant));
-            if (attr_value.empty())
+            std::string  attr_value;
+            if (!msg.findAttributeValue( field_def.mConstant, attr_value))
                attr_value = Logging::instance().getAttribute( field_def.mConstant);
             append( dest, field_def, attr_value);
          } // end scope
